@@ -76,6 +76,12 @@ class Ctx:
                               cmd="make -C coq", build_failed=True)
             return self.proof
         self.proof = coqrun.check_props(self.cid)
+        if self.thorough and self.proof.get("ok"):
+            chk = coqrun.coqchk(self.cid)
+            self.notes["coqchk"] = {k: v for k, v in chk.items() if k != "tail" or not chk["ok"]}
+            if not chk["ok"]:
+                self.proof["ok"] = False
+                self.proof["log"] = "coqchk: " + chk["tail"]
         return self.proof
 
     def correspond(self, name, imports, case_type, checker, literals, cases_json=None, shard=300, extra_defs="",
